@@ -47,6 +47,7 @@ package raft
 //@   ensures [C05.set-ok] result0 == nil ==> v.v1 == v1 && v.v2 == v2 && ValueInv(v)
 //@   ensures [C05.set-err] result0 != nil ==> v.v1 == old(v.v1) && v.v2 == old(v.v2)
 //@   ensures [C05.set-atomic] DiskIs(v, old(v.v1), old(v.v2)) || DiskIs(v, v1, v2)
+//@   crash_inv [C10.value-crash-atomic] DiskIs(v, old(v.v1), old(v.v2)) || DiskIs(v, v1, v2)
 
 // ---------------------------------------------------------------------------
 // term / vote persistence (C05, C01, C10)
@@ -66,6 +67,7 @@ package raft
 //@   ensures [C05.termval-stable] s.termVal == old(s.termVal)
 //@   panic_ensures [C05.fail-keeps-memory] s.term == old(s.term) && s.votedFor == old(s.votedFor) && s.termVal == old(s.termVal)
 //@   panic_ensures [C05.fail-atomic] DurableIs(s, old(s.term), old(s.votedFor)) || DurableIs(s, term, candidate)
+//@   crash_inv [C10.vote-crash-atomic] (DurableIs(s, old(s.term), old(s.votedFor)) || DurableIs(s, term, candidate)) && s.termVal == old(s.termVal)
 
 //@ func (*storage).setTerm
 //@   requires TermInv(s)
@@ -76,6 +78,7 @@ package raft
 //@   ensures [C05.termval-stable] s.termVal == old(s.termVal)
 //@   panic_ensures [C05.fail-keeps-memory] s.term == old(s.term) && s.votedFor == old(s.votedFor) && s.termVal == old(s.termVal)
 //@   panic_ensures [C05.fail-atomic] DurableIs(s, old(s.term), old(s.votedFor)) || DurableIs(s, term, 0)
+//@   crash_inv [C10.term-crash-atomic] (DurableIs(s, old(s.term), old(s.votedFor)) || DurableIs(s, term, 0)) && s.termVal == old(s.termVal)
 
 // ---------------------------------------------------------------------------
 // node-level well-formedness used by the handlers
